@@ -850,8 +850,9 @@ def main(prop, tier):
     res = common.run_cells('vf.labs.ctxlab:cell_any', allc, tag, timeout=1500)
     agg.add_cells(res)
     for k, v in FLOORS['quick'].items():
-        # thorough produces 5-9 times the quick volume per counter; its floors are 3 x the quick floors
-        agg.floor(k, v * 3 if tier == 'thorough' else v)
+        # thorough produces 5-9 times the quick volume per counter: 7 x the quick floors is
+        # 6-17 % of what the unchanged tree produces there
+        agg.floor(k, v * 7 if tier == 'thorough' else v)
     common.cleanup(tag)
     n_exh = agg.events.get('exhaustive-histories', 0)
     return agg.finish(
